@@ -61,10 +61,7 @@ def RI(self, orig):
     if rest != '':
         if rest[:1] != NL:
             return False
-    if k != 0:
-        if orig[:k][k - 1:] != NL:
-            return False
-    return self._current_line_number == 1 + orig[:k].count(NL)
+    return (k == 0 or orig[k - 1:k] == NL) and self._current_line_number == 1 + orig[:k].count(NL)
 
 
 PARSE_SOURCE = Inst(ParseSource, _column_index=Int, source_string=Str,
@@ -160,7 +157,7 @@ M.contract(P_PS + ':ParseSource.current_line', params=dict(self=PARSE_SOURCE), g
 
 # ---- mutators
 
-M.contract(P_PS + ':ParseSource.consume',
+M.contract(P_PS + ':ParseSource.consume', inline=True,
            params=dict(self=PARSE_SOURCE, number_of_characters=Nat), ghosts=dict(orig=Str),
            requires=lambda self, orig: RI(self, orig),
            old=lambda self, orig: (snap(self), off_of(self, orig)),
@@ -177,7 +174,7 @@ M.contract(P_PS + ':ParseSource.consume',
                (not has_line(self)) or self._current_line_number == 1 + orig[:off_of(self, orig)].count(NL),
            }, raises_only=())
 
-M.contract(P_PS + ':ParseSource.consume_current_line',
+M.contract(P_PS + ':ParseSource.consume_current_line', inline=True,
            params=dict(self=PARSE_SOURCE), ghosts=dict(orig=Str),
            requires=lambda self, orig: RI(self, orig),
            old=lambda self, orig: (snap(self), off_of(self, orig)),
@@ -194,7 +191,7 @@ M.contract(P_PS + ':ParseSource.consume_current_line',
                ((not has_line(self)) and off_of(self, orig) == len(orig)),
            }, raises_only=())
 
-M.contract(P_PS + ':ParseSource.consume_part_of_current_line',
+M.contract(P_PS + ':ParseSource.consume_part_of_current_line', inline=True,
            params=dict(self=PARSE_SOURCE, num_characters=Nat), ghosts=dict(orig=Str),
            requires=lambda self, orig: RI(self, orig) and has_line(self),
            old=lambda self, orig: (snap(self), off_of(self, orig)),
@@ -249,7 +246,7 @@ M.contract(P_PS + ':ParseSource.is_at_eol__except_for_space', params=dict(self=P
            iff(result, all_space(self._current_line_text[self._column_index:]))},
            raises_only=())
 
-M.contract(P_PS + ':ParseSource.catch_up_with',
+M.contract(P_PS + ':ParseSource.catch_up_with', inline=True,
            params=dict(self=PARSE_SOURCE, parse_source_that_is_ahead=PARSE_SOURCE), ghosts=dict(orig=Str),
            requires=lambda parse_source_that_is_ahead, orig: RI(parse_source_that_is_ahead, orig),
            modifies=dict(self=PS_FRAME),
@@ -266,3 +263,115 @@ M.contract(P_PS + ':ParseSource.copy', params=dict(self=PARSE_SOURCE), ghosts=di
                result is not self and unchanged(result, snap(self)),
                'RI': lambda result, orig: RI(result, orig),
            }, raises_only=())
+
+# ============================================================================== element parsers
+from pyvc.api import MListOf
+from pyvc.interp import PyRaise, ArbitraryException
+from pyvc.path import PathAbort
+from exactly_lib.section_document import model, syntax
+from exactly_lib.section_document.element_parsers import section_element_parsers as sep
+from exactly_lib.section_document.section_element_parsing import (
+    SectionElementParser, SectionElementError, UnrecognizedSectionElementSourceError,
+    RecognizedSectionElementSourceError)
+from exactly_lib.section_document.source_location import FileSystemLocationInfo, FileLocationInfo
+from exactly_lib.util import line_source
+
+P_SEP = 'exactly_lib.section_document.element_parsers.section_element_parsers'
+
+M.assume('Opaque parsers (instruction parsers, section element parsers of the phases) change the ParseSource they '
+         'are given only through its public methods, and only forwards.  Modelled operationally: the effect of a '
+         'parser on the source is that of source.consume(n) for an arbitrary n >= 0 that does not exceed what is '
+         'left, optionally followed by source.consume_current_line() -- the real code of both is executed.  By the '
+         'class contract (every mutator keeps the representation invariant and moves forward) and the lemma '
+         '`state is a function of the offset` (proved below) every state that any sequence of public mutator calls '
+         'can reach is reached this way.  Otherwise parsers may return anything of their result type or raise '
+         'any exception.')
+
+
+def line_number_at(orig, off):
+    """the number of the line of orig that contains offset off (1 + the newlines before it)"""
+    return 1 + orig[:off].count(NL)
+
+
+def without_final_newline(s):
+    return s[:len(s) - 1] if s.endswith(NL) else s
+
+
+LINE_SEQUENCE = Inst(line_source.LineSequence, _first_line_number=Int, _lines=MListOf(Str))
+
+
+def havoc_source_forward(interp, source):
+    """environment step on a ParseSource (see the assumption above): consume(n), then possibly
+    consume_current_line(), executed from the real source text of ParseSource"""
+    st = interp.st
+    n = Nat.make(interp, 'consumed')
+    assume_pred(interp, _available, source, n)
+    interp.call_real_function(ParseSource.consume, [source, n], {})
+    if st.choose(2) == 1:
+        # (consume_current_line before the last line gives a state that consume(n) reaches as well)
+        assume_pred(interp, _on_last_line, source)
+        interp.call_real_function(ParseSource.consume_current_line, [source], {})
+
+
+def _on_last_line(source):
+    return has_line(source) and NL not in source.source_string
+
+
+def _available(source, n):
+    return n <= len(source.source_string) - source._column_index
+
+
+class ParserExceptionI(Interface):
+    """An exception raised by an opaque parser: of any class (isinstance against the classes the code names
+    is decided, by case split, where an `except` clause asks); when it is a SectionElementError it has a source
+    and a message."""
+    target_class = Exception
+    attrs = {'source': LINE_SEQUENCE, 'message': Str}
+
+
+PARSER_EXCEPTION = Iface(ParserExceptionI)
+
+
+def _raise_some(interp, o):
+    """environment: the parser raises some exception, or none"""
+    if interp.st.choose(2) == 1:
+        raise PyRaise(PARSER_EXCEPTION.make(interp, 'exc'))
+
+
+def _instruction_parser_parse(interp, self, args, kwargs):
+    fs_location_info, source = args
+    havoc_source_forward(interp, source)
+    _raise_some(interp, self)
+    r = Any_.make(interp, 'instruction')
+    interp.st.ghost['parsed-instruction'] = r
+    return r
+
+
+class InstructionParserI(Interface):
+    """element_parsers.section_element_parsers.InstructionParser: environment (the instruction set)"""
+    target_class = sep.InstructionParser
+    methods = {'parse': Method(model=_instruction_parser_parse)}
+
+
+M.contract(P_SEP + ':parse_and_compute_source',
+           params=dict(parser=Iface(InstructionParserI), fs_location_info=Any_, source=PARSE_SOURCE,
+                       description=Any_),
+           ghosts=dict(orig=Str),
+           requires=lambda source, orig: RI(source, orig) and has_line(source),
+           old=lambda source, orig: off_of(source, orig),
+           modifies=dict(source=PS_FRAME),
+           may_raise=(PARSER_EXCEPTION,),
+           ensures={
+               'source-still-well-formed-and-not-moved-back': lambda source, orig, old:
+               RI(source, orig) and off_of(source, orig) >= old,
+               'first-line-number-is-that-of-the-first-consumed-character': lambda result, orig, old:
+               result.source.first_line_number == line_number_at(orig, old),
+               'lines-are-the-consumed-text': lambda result, source, orig, old:
+               NL.join(result.source.lines) == without_final_newline(orig[old:off_of(source, orig)]),
+               'no-line-contains-a-newline-and-there-is-at-least-one': lambda result:
+               len(result.source.lines) >= 1
+               and forall_range(0, len(result.source.lines), lambda j: NL not in result.source.lines[j]),
+               'instruction-and-description-passed-through': lambda result, description, ghost:
+               result.instruction_info.instruction is ghost['parsed-instruction']
+               and result.instruction_info.description is description,
+           })
